@@ -1,6 +1,6 @@
 #!/usr/bin/env bash
 # tools/seed_pipeline.sh <ID> <k> [check ids]: verify a seed from /tmp/seed-out/<ID>/<k> and run the checks against it
 ID=$1; K=$2; shift 2; CHECKS="${*:-$ID}"
-D=/tmp/seed-out/$ID/$K
+D=${SEED_ROOT:-/tmp/seed-out}/$ID/$K
 echo "##### $ID/$K verify"; /verif/tools/verify_seed.sh $D 2>&1 | tail -1
 echo "##### $ID/$K mutcheck ($CHECKS)"; /verif/tools/mutcheck.sh $D/patch.diff $CHECKS 2>&1 | tail -8 | cut -c1-400
